@@ -461,3 +461,91 @@ Example ex_pls_hyps :
   /\ py_lower (lit "Playlist") = PLAYLIST
   /\ parse true o data = Ok [Some (lit "http://a/1"); Some (lit "b.mp3")].
 Proof. vm_compute. repeat split; discriminate. Qed.
+
+(* ------------------------------------------------------------------ T2 for printable ASCII *)
+
+(* a line of printable ASCII (no space), not starting with '#': what a URI looks like *)
+Definition printable (c : Z) : bool := (33 <=? c) && (c <=? 126).
+Definition ascii_line (b : bytes) : Prop :=
+  forallb printable b = true /\ match b with [] => False | c :: _ => c <> HASH end.
+
+Lemma printable_not_space c : printable c = true -> py_isspace c = false.
+Proof. unfold printable, py_isspace. lia. Qed.
+
+Lemma lstrip_id l : Forall (fun c => py_isspace c = false) l -> lstrip l = l.
+Proof. destruct 1 as [|c t Hc Ht]; [reflexivity|]. cbn. rewrite Hc. reflexivity. Qed.
+
+Lemma strip_id l : Forall (fun c => py_isspace c = false) l -> strip l = l.
+Proof.
+  intros H. unfold strip, rstrip. rewrite (lstrip_id l H).
+  rewrite lstrip_id by (apply Forall_rev; exact H). apply rev_involutive.
+Qed.
+
+Lemma ascii_line_safe b : ascii_line b -> safe_line (b, b).
+Proof.
+  intros [Hp Hh]. unfold safe_line. cbn [fst snd].
+  assert (Hall : Forall (fun c => printable c = true) b) by (apply Forall_forall, forallb_forall; exact Hp).
+  split; [|split; [|split; [|split]]].
+  - unfold noeol. apply forallb_forall. intros c Hc.
+    rewrite Forall_forall in Hall. specialize (Hall c Hc). unfold printable in Hall. lia.
+  - destruct b as [|c t]; [contradiction|]. unfold b_blank. cbn [forallb].
+    inversion Hall as [|? ? Hc _]; subst.
+    unfold printable in Hc. unfold b_isspace. replace (((9 <=? c) && (c <=? 13)) || (c =? 32)) with false by lia.
+    reflexivity.
+  - destruct b as [|c t]; [contradiction|]. cbn [starts_with]. unfold HASH in *.
+    replace (35 =? c) with false by lia. reflexivity.
+  - apply utf8_decode_ascii. apply forallb_forall. intros c Hc.
+    rewrite Forall_forall in Hall. specialize (Hall c Hc). unfold printable in Hall. lia.
+  - apply strip_id. eapply Forall_impl; [|exact Hall]. intros c. apply printable_not_space.
+Qed.
+
+Lemma map_pair_fst {A} (l : list A) : map fst (map (fun b => (b, b)) l) = l.
+Proof. induction l; cbn; [reflexivity|f_equal; auto]. Qed.
+Lemma map_pair_snd {A} (l : list A) : map snd (map (fun b => (b, b)) l) = l.
+Proof. induction l; cbn; [reflexivity|f_equal; auto]. Qed.
+
+Theorem wellformed_m3u_ascii_lemma :
+  forall fx o (ls : list bytes),
+    Forall ascii_line ls -> parse fx o (render_m3u ls) = Ok (map Some ls).
+Proof.
+  intros fx o ls H.
+  pose proof (wellformed_m3u_lemma fx o (map (fun b => (b, b)) ls)) as W.
+  rewrite map_pair_fst, map_pair_snd in W. apply W.
+  rewrite Forall_map. eapply Forall_impl; [|exact H]. intros b. apply ascii_line_safe.
+Qed.
+
+(* A URI list of printable-ASCII lines that begin with a letter is never mistaken for an
+   extended M3U or a PLS; if expat finds no root element in the sniffed prefixes (it
+   cannot: the text does not begin with '<') it is parsed as a URI list. *)
+Lemma first_alpha_no_m3u_pls (b : bytes) rest :
+  match b with c :: _ => ascii_alpha c = true | [] => False end ->
+  detect_extm3u (b ++ rest) = false /\ detect_pls (b ++ rest) = false.
+Proof.
+  destruct b as [|c t]; [contradiction|]. intros Hc. unfold detect_extm3u, detect_pls.
+  cbn [app firstn map].
+  change (lit "#EXTM3U") with [35; 69; 88; 84; 77; 51; 85].
+  change (lit "[playlist]") with [91; 112; 108; 97; 121; 108; 105; 115; 116; 93].
+  unfold str_eqb. cbn [list_eqb]. unfold ascii_alpha in Hc. unfold ascii_upper, ascii_lower.
+  split.
+  - destruct ((97 <=? c) && (c <=? 122)) eqn:E; replace (_ =? 35) with false by lia; reflexivity.
+  - destruct ((65 <=? c) && (c <=? 90)) eqn:E; replace (_ =? 91) with false by lia; reflexivity.
+Qed.
+
+Theorem wellformed_urilist_ascii_lemma :
+  forall fx o (l : bytes) (ls : list bytes),
+    Forall ascii_line (l :: ls) ->
+    match l with c :: _ => ascii_alpha c = true | [] => False end ->
+    Forall (fun b => check_uri_ok o b = true) (l :: ls) ->
+    o_head50 o = HeadParseError -> o_head150 o = HeadParseError ->
+    parse fx o (render_urilist (l :: ls)) = Ok (map Some (l :: ls)).
+Proof.
+  intros fx o l ls H Hl Hc H50 H150.
+  pose proof (wellformed_urilist_lemma fx o (map (fun b => (b, b)) (l :: ls))) as W.
+  rewrite map_pair_fst, map_pair_snd in W. apply W.
+  - rewrite Forall_map. eapply Forall_impl; [|exact H]. intros b. apply ascii_line_safe.
+  - rewrite Forall_map. exact Hc.
+  - unfold no_header. cbn [render_urilist flat_map]. rewrite <- app_assoc.
+    destruct (first_alpha_no_m3u_pls l (NLb ++ flat_map (fun l0 => l0 ++ NLb) ls) Hl) as [E1 E2].
+    rewrite E1, E2. unfold detect_asx, detect_xspf, detect_xml. rewrite H50, H150.
+    repeat split; destruct (negb _); reflexivity.
+Qed.
